@@ -332,7 +332,7 @@ Proof.
   intros WR WF V H. pose proof WR as (NDi & A & Ext).
   destruct (edges_once_final r t ords labels rs ls WR WF V H)
     as (front & last & Ers & El & Ee & _ & _ & _ & Hfresh & NDn & _ & _).
-  destruct (find_root (fr_ext r) t 0) as [root|] eqn:FR; [|unfold factorize_rule_model in H; rewrite FR in H; discriminate].
+  destruct (find_root (fr_ext r) t 0) as [root|] eqn:FR; [|unfold factorize_rule_model, factorize_rule_from in H; rewrite FR in H; discriminate].
   destruct (valid_rooted r t WF V root NDi A Ext FR) as (T & RV).
   destruct (model_output r t ords labels root T rs ls FR RV H) as (nm & Ers' & Eroot & _ & _ & _).
   pose proof (rr_valid r t root T RV) as Vt.
@@ -340,8 +340,7 @@ Proof.
   rewrite Ers in EL. apply app_inj_tail in EL. destruct EL as [<- Elast].
   assert (Orig : forall e d, In e (fr_edges r) -> In d front -> fr_lhs d <> fe_lab e).
   { intros e d He Hd E. destruct (Hfresh d Hd) as (Tm & _ & Nin). apply Nin. rewrite E. apply in_map.
-    unfold init_labels. apply in_or_app. left. apply filter_In. split; [now apply in_map|].
-    unfold is_ntl. now rewrite <- E, Tm. }
+    unfold init_labels. apply in_or_app. left. now apply in_map. }
   destruct (expand_tree r t ords nm front NDn Orig T None) as (ns & es & X & P & N & M).
   { destruct T as [i cs]. cbn [rt_root rt_kids]. intros x Hx.
     assert (Hin : In x (rules_of_rt r t ords nm (RT i cs) None)) by now apply (kids_rules_incl r t ords nm i cs None).
